@@ -236,7 +236,7 @@ def exactTy (t : Ty) : Val → Bool
     | .function, .func _ => true
     | .method, .method _ => true
     | .module, .module _ => true
-    | .type, .cls _ _ => true
+    | .type, .cls _ mro => !mro.contains 0               -- class 0 is a HasTraits class: its metaclass is a subclass of `type`
     | .type, .tyobj _ => true
     | .user c, .inst c' _ _ _ => c == c'
     | _, _ => false
@@ -285,12 +285,50 @@ inductive Tri where
   | raises (e : Exc)
   deriving DecidableEq, Repr, Inhabited
 
-/-- `==` on atoms (exact comparison of int and float, as CPython does). -/
+/-- numpy scalar. -/
+def Atom.isNp : Atom → Bool
+  | .npBool _ | .npInt _ _ | .npFloat _ _ | .npComplex _ _ _ => true
+  | _ => false
+
+/-- Integer payload of Python ints / bools and numpy ints (numpy compares those exactly). -/
+def Atom.exactInt : Atom → Option Int
+  | .bool b => some (if b then 1 else 0)
+  | .int _ n => some n
+  | .npInt _ n => some n
+  | _ => Option.none
+
+/-- numpy's view of a number: converted to (complex) double; a Python int that
+does not fit raises OverflowError. -/
+def Atom.asNpDouble : Atom → Option (Except Exc (F × F))
+  | .bool b => some (.ok (.fin (if b then 4 else 0), .fin 0))
+  | .int _ n => some ((intToFloat n).map fun f => (f, .fin 0))
+  | .npInt _ n => some ((intToFloat n).map fun f => (f, .fin 0))
+  | .npBool b => some (.ok (.fin (if b then 4 else 0), .fin 0))
+  | .float _ f => some (.ok (f, .fin 0))
+  | .npFloat _ f => some (.ok (f, .fin 0))
+  | .complex _ re im => some (.ok (re, im))
+  | .npComplex _ re im => some (.ok (re, im))
+  | _ => Option.none
+
+/-- `==` on atoms.  Pure Python numbers compare exactly (int against float
+too, as CPython does); as soon as a numpy scalar is involved numpy's `__eq__`
+decides: integers among themselves exactly, everything else after conversion
+to double. -/
 def Atom.pyEq (a b : Atom) : Tri :=
   match a, b with
   | .npArr _, _ | _, .npArr _ => .raises .valueError
   | .badEq _, _ | _, .badEq _ => .raises .valueError
   | _, _ =>
+    if a.isNp || b.isNp then
+      match a.exactInt, b.exactInt with
+      | some m, some n => if m = n then .yes else .no
+      | _, _ =>
+        match a.asNpDouble, b.asNpDouble with
+        | some (.error e), some _ => .raises e
+        | some _, some (.error e) => .raises e
+        | some (.ok (x, xi)), some (.ok (y, yi)) => if F.eq x y && F.eq xi yi then .yes else .no
+        | _, _ => .no
+    else
     match a.num, b.num with
     | some (x, xi), some (y, yi) => if F.eq x y && F.eq xi yi then .yes else .no
     | some _, Option.none | Option.none, some _ => .no
@@ -310,6 +348,12 @@ def Atom.pyEq (a b : Atom) : Tri :=
       | .dict i, .dict j => if i = j then .yes else .no
       | _, _ => .no
 
+/-- A numpy scalar against a sequence broadcasts: exactly one (scalar) element
+→ that comparison, otherwise the result array has no truth value. -/
+def npSeq (a : Atom) : List Val → Tri
+  | [.atom w] => a.pyEq w
+  | _ => .raises .valueError
+
 mutual
 /-- `bool(a == b)`: tuples and lists compare element-wise (first difference
 decides, an exception from an element comparison propagates). -/
@@ -319,6 +363,10 @@ def Val.pyEq : Val → Val → Tri
   | .list vs, .list ws => Val.pyEqL vs ws
   | .atom (.npArr _), _ | _, .atom (.npArr _) => .raises .valueError
   | .atom (.badEq _), _ | _, .atom (.badEq _) => .raises .valueError
+  | .atom a, .tuple _ ws => if a.isNp then npSeq a ws else .no
+  | .atom a, .list ws => if a.isNp then npSeq a ws else .no
+  | .tuple _ vs, .atom b => if b.isNp then npSeq b vs else .no
+  | .list vs, .atom b => if b.isNp then npSeq b vs else .no
   | _, _ => .no
 def Val.pyEqL : List Val → List Val → Tri
   | [], [] => .yes
